@@ -275,7 +275,7 @@ class ModelReplay(Listener):
         orl = cl.release_batch_resources
 
         def prov(size, name, c="default"):
-            if name == "__foreign__":
+            if name == "__foreign__" or getattr(cl, "_adv_call", False):
                 me.adv_pre.append({"c": "provBatch", "size": size, "o": me.mp.oid(name)})
             return op(size, name, c)
 
